@@ -139,6 +139,11 @@ def run(idx: Index, rep: Report, tier: str) -> None:
     rule3 = "C05.3 T2 simultaneous-effects-conflict"
     ae = idx.func(TT + "._apply_effects")
     raises = [r for r in walk_no_nested(ae.node) if isinstance(r, ast.Raise) and r.exc is not None and "UPConflictingEffectsException" in norm(r.exc)]
+    # a raise inside a private helper of the validator counts once per call site in _apply_effects
+    for c in walk_no_nested(ae.node):
+        if isinstance(c, ast.Call) and isinstance(c.func, ast.Attribute) and norm(c.func.value) in ("self", "TimeTriggeredPlanValidator") and c.func.attr.startswith("_") and c.func.attr in cls.methods and c.func.attr != ae.node.name:
+            hr = [r for r in walk_no_nested(cls.methods[c.func.attr].node) if isinstance(r, ast.Raise) and r.exc is not None and "UPConflictingEffectsException" in norm(r.exc)]
+            raises += hr[:1]
     rep.check(len(raises) >= 2, rule3, "_apply_effects raises on double effects (effects and simulated effects)", ae.loc(raises[0]) if raises else ae.loc(), construct=f"{len(raises)} raise UPConflictingEffectsException", detail="" if len(raises) >= 2 else "conflicting assignments at one instant are not rejected on every branch", function=ae.qualname)
     aec = cfg_of(ae)
     mk = cfg_nodes_with_call(aec, "make_child")
